@@ -92,6 +92,7 @@ class Workspace(AbstractContextManager):
     """
 
     _active_ref: ClassVar[ReferenceType[Workspace]] | type(None) = type(None)  # type: ignore
+    _read_only: bool = False
     _attribute_map = {
         "Contributors": "contributors",
         "Distance unit": "distance_unit",
@@ -188,7 +189,7 @@ class Workspace(AbstractContextManager):
         if not self._geoh5:
             return
 
-        writable = self.geoh5.mode in ["r+", "a"]
+        writable = self.geoh5.mode in ["r+", "a"] and not self._read_only
         if writable:
             for entity in self.groups:
                 if isinstance(entity, Concatenator) and self.repack:
@@ -1234,6 +1235,9 @@ class Workspace(AbstractContextManager):
         except OSError:
             self._geoh5 = h5py.File(self.h5file, "r")
 
+        # HDF5 hands out the mode of a handle this process already holds on the file
+        self._read_only = mode == "r"
+
         self._data = {}
         self._objects = {}
         self._groups = {}
@@ -1465,7 +1469,7 @@ class Workspace(AbstractContextManager):
             if self._geoh5 is None:
                 return None
 
-            if mode in ["r+", "a"] and self.geoh5.mode == "r":
+            if mode in ["r+", "a"] and (self.geoh5.mode == "r" or self._read_only):
                 raise UserWarning(
                     f"Error performing {fun}. "
                     "Attempting to write to a geoh5 file in read-only mode. "
